@@ -441,13 +441,13 @@ package parse
 // command-level functions may also update the tree's namespace / aliases.
 //@ functype exprFn
 //@   params t
-//@   props C05 C18
+//@   props C05 C18 C19
 //@   requires treeOK(t)
 //@   modifies t.peekCount, t.token, t.lex.recv, t.lex.done
 //@   ensures[step] stepOK(t)
 //@ functype parserFn
 //@   params t
-//@   props C05 C18
+//@   props C05 C18 C19
 //@   requires treeOK(t) && t.aliases != nil
 //@   modifies *
 //@   preserves E!Int G!github.com/robfig/soy/* F!github.com/robfig/soy/parse.tree!name F!github.com/robfig/soy/parse.tree!text
